@@ -163,6 +163,13 @@ HandFold(list, i, h, hl, v) ==
        IN HandFold(list, i + 1, [h EXCEPT ![w] = Append(@, sn)], [hl EXCEPT ![w] = nhl],
                    v \cup v1 \cup v2 \cup v3)
 
+ObsHandWith(list, extra) ==
+  LET r == HandFold(list, 1, handed, hlow, viol \cup extra)
+  IN  /\ handed' = r[1]
+      /\ hlow'   = r[2]
+      /\ viol'   = r[3]
+      /\ UNCHANGED <<matched, recv, unavMay, unavMust, everUnav, deliv, frags, hbCnt, hbRange, low, ackBase, ackCnt, nfCnt>>
+
 ObsHand(list) ==
   LET r == HandFold(list, 1, handed, hlow, viol)
   IN  /\ handed' = r[1]
